@@ -340,6 +340,8 @@ type TShape struct{ MaxRes, MaxScopes, MaxSpans int }
 func (g *OGen) Traces(sh TShape) ptrace.Traces {
 	td := ptrace.NewTraces()
 	nr := g.r.Intn(sh.MaxRes + 1)
+	var shared pcommon.InstrumentationScope
+	sharedURL, haveShared := "", false
 	for i := 0; i < nr; i++ {
 		rs := td.ResourceSpans().AppendEmpty()
 		g.Resource(rs.Resource())
@@ -347,8 +349,14 @@ func (g *OGen) Traces(sh TShape) ptrace.Traces {
 		ns := g.r.Intn(sh.MaxScopes + 1)
 		for j := 0; j < ns; j++ {
 			ss := rs.ScopeSpans().AppendEmpty()
-			g.Scope(ss.Scope())
-			ss.SetSchemaUrl(g.schemaURL())
+			if haveShared && g.r.Chance(40) {
+				shared.CopyTo(ss.Scope()) // the same scope (and scope schema URL) under different resources
+				ss.SetSchemaUrl(sharedURL)
+			} else {
+				g.Scope(ss.Scope())
+				ss.SetSchemaUrl(g.schemaURL())
+				shared, sharedURL, haveShared = ss.Scope(), ss.SchemaUrl(), true
+			}
 			n := g.r.Intn(sh.MaxSpans + 1)
 			for k := 0; k < n; k++ {
 				g.Span(ss.Spans().AppendEmpty())
@@ -600,6 +608,8 @@ func (g *OGen) Metric(m pmetric.Metric, maxPts int) {
 func (g *OGen) Metrics(sh TShape) pmetric.Metrics {
 	md := pmetric.NewMetrics()
 	nr := g.r.Intn(sh.MaxRes + 1)
+	var shared pcommon.InstrumentationScope
+	sharedURL, haveShared := "", false
 	for i := 0; i < nr; i++ {
 		rm := md.ResourceMetrics().AppendEmpty()
 		g.Resource(rm.Resource())
@@ -607,8 +617,14 @@ func (g *OGen) Metrics(sh TShape) pmetric.Metrics {
 		ns := g.r.Intn(sh.MaxScopes + 1)
 		for j := 0; j < ns; j++ {
 			sm := rm.ScopeMetrics().AppendEmpty()
-			g.Scope(sm.Scope())
-			sm.SetSchemaUrl(g.schemaURL())
+			if haveShared && g.r.Chance(40) {
+				shared.CopyTo(sm.Scope()) // the same scope (and scope schema URL) under different resources
+				sm.SetSchemaUrl(sharedURL)
+			} else {
+				g.Scope(sm.Scope())
+				sm.SetSchemaUrl(g.schemaURL())
+				shared, sharedURL, haveShared = sm.Scope(), sm.SchemaUrl(), true
+			}
 			n := g.r.Intn(sh.MaxSpans + 1)
 			for k := 0; k < n; k++ {
 				g.Metric(sm.Metrics().AppendEmpty(), 3)
